@@ -14,6 +14,7 @@ calls of one untrash request is one tick per volume (`Cfg.spread := 1`; less tha
 import ArvVerif.Base.Loop
 import ArvVerif.Model.C04
 import ArvVerif.Model.C04_Race
+import ArvVerif.Model.C04_Compose
 open ArvVerif ArvVerif.C04
 
 namespace C04Drv
@@ -194,6 +195,26 @@ def hist (f : List String) : String :=
     | _, _, _ => "bad-op"
   | _ => "bad-op"
 
+/-- link between the layers, executable: the outcome of the two SEQUENTIAL histories [P, T] and [T, P] in
+the HISTORY model (`Model/C04_Compose.lean`, at the times the Go driver uses), printed in the format of a
+race result. `C04_race_linearizable` proves that the interleaving model always ends like one of them; the
+plugin checks that the real implementation's outcome is one of them. -/
+def seqOutcome (c : Race.Cfg) (pFirst : Bool) : String :=
+  let τ := Compose.drvTimes c
+  let hc := Compose.hCfg c τ
+  let s0 := Compose.hSt c τ
+  let (s2, rp, rt) :=
+    if pFirst then
+      let r1 := C04.step hc s0 (Compose.hP c)
+      let r2 := C04.step hc r1.1 (Compose.hT c τ)
+      (r2.1, r1.2, r2.2)
+    else
+      let r1 := C04.step hc s0 (Compose.hT c τ)
+      let r2 := C04.step hc r1.1 (Compose.hP c)
+      (r2.1, r2.2, r1.2)
+  let g := (C04.step hc s2 (.get 0)).2
+  s!"P={showRes rp};T={showRes rt};get={showRes g};dir={listing s2}"
+
 open ArvVerif.C04.Race in
 def race (f : List String) : String :=
   match f with
@@ -232,7 +253,7 @@ def race (f : List String) : String :=
         | _ => []
       let all := C04Drv.sortStrings (ent .a s.locA ++ ent .b s.locB ++ ent .x s.locX)
       let dir := if all.isEmpty then "-" else ",".intercalate all
-      s!"P={pr} T={tres} get={get} dir={dir} trace={if tr.isEmpty then "-" else ",".intercalate tr}"
+      s!"P={pr} T={tres} get={get} dir={dir} trace={if tr.isEmpty then "-" else ",".intercalate tr} seq={seqOutcome cfg true}|{seqOutcome cfg false}"
     | _, _, _, _, _, _, _ => "bad-op"
   | _ => "bad-op"
 
